@@ -4251,11 +4251,7 @@ fn delete_char_range(value: &str, offset: usize, count: usize) -> String {
         chars.len()
     };
 
-    let e = if s + count < chars.len() {
-        s + count
-    } else {
-        chars.len()
-    };
+    let e = s.saturating_add(count).min(chars.len());
 
     chars.drain(s..e);
 
